@@ -217,10 +217,13 @@ class ScriptRepo(BaseRepositoryConnection):
     def _arg(args, kwargs, name):
         return args[0] if args else kwargs[name]
 
+    missing_ns = frozenset()      # namespaces this repository does not have (every other one exists)
+
     def _nsof(self, args, kwargs, pos=1):
-        if len(args) > pos:
-            return args[pos]
-        return kwargs.get('namespace') or self._ns
+        ns = args[pos] if len(args) > pos else (kwargs.get('namespace') or self._ns)
+        if ns in self.missing_ns:
+            raise CIMError(_K.CIM_ERR_INVALID_NAMESPACE, ns)
+        return ns
 
     def GetClass(self, *args, **kwargs):
         self._hit('GetClass')
@@ -1744,6 +1747,683 @@ def f_sequences():
 
 
 # ----------------------------------------------------------------------------------------------------------------
+# F12: retry after fix. ONE reused MOFCompiler: (1) MOF X fails for a dependency/repository reason, (2) the cause is
+# removed through the same compiler (or on disk / in the repository), (3) X is compiled again and must succeed, and
+# the repository must then equal what a compiler that never saw the failure produces from (missing piece + X).
+# ----------------------------------------------------------------------------------------------------------------
+QX = QUALS + ('Qualifier EmbeddedObject : boolean = false, Scope(property, method, parameter), '
+              'Flavor(DisableOverride, ToSubclass);\n')
+QDESC = 'Qualifier Description : string = null, Scope(any), Flavor(EnableOverride, ToSubclass, Translatable);\n'
+RX_T = QKEY + 'class RX_T { [Key] uint8 k; };\n'
+RX_ROOT = 'class RX_Root { uint8 r; };\n'
+RX_LINK = ('[Association] class RX_L { [Key] RX_T ref a; [Key] RX_T ref b; uint8 w; };\n'
+           'instance of RX_T as $a@U@ { k = 1; };\ninstance of RX_T as $b@U@ { k = 2; };\n'
+           'instance of RX_L { a = $a@U@; b = $b@U@; w = 3; };\n')
+RX_REPO = QX + ('class RX_RA { [Key] uint8 k; string s; };\nclass RX_RB : RX_RA { uint8 n; };\n'
+                '[Association] class RX_RL { [Key] RX_RA ref a; [Key] RX_RA ref b; };\n'
+                'instance of RX_RA as $ra@U@ { k = 1; s = "x"; };\ninstance of RX_RB as $rb@U@ { k = 2; n = 5; };\n'
+                'instance of RX_RL { a = $ra@U@; b = $rb@U@; };\n')
+RX_REPO_Y = RX_REPO + 'class RX_RZ : RX_RA { uint8 z; };\ninstance of RX_RZ { k = 9; z = 1; };\n'
+
+
+def _rx(name, x, fail, fixes, y, setup=(), pre=None, kinds=None, modes=None, arm=None, ns2=False, pre_inst=''):
+    return dict(name=name, x=x, fail=fail, fixes=fixes, y=y, setup=list(setup), pre=pre or {}, kinds=kinds,
+                modes=modes, arm=arm, ns2=ns2, pre_inst=pre_inst)
+
+
+ALLMODES = ('string', 'file', 'inc1', 'inc2', 'dep1', 'dep2')
+NODEP = ('string', 'file', 'inc1', 'inc2')
+RX_SCENARIOS = [
+    _rx('missing-superclass',
+        QX + 'class RX_A { [Key] uint8 k; };\n@PRE@class RX_D : RX_Base { uint8 d; };\n'
+             'instance of RX_D { k = 2; b = 3; d = 4; };\n',
+        'MOFDependencyError',
+        [[('compile', QKEY + 'class RX_Base { [Key] uint8 k; uint8 b; };\n')],
+         [('write', 'RX_Base.mof', QKEY + 'class RX_Base { [Key] uint8 k; uint8 b; };\n')]],
+        QX + 'class RX_E : RX_Base { uint8 e; };\ninstance of RX_E { k = 7; b = 1; e = 2; };\n',
+        pre_inst='instance of RX_A as $a@U@ { k = 1; };\n'),
+    _rx('missing-reference-class', QX + RX_LINK, 'MOFDependencyError',
+        [[('compile', RX_T)], [('write', 'sub/RX_T.mof', RX_T)]],
+        QX + '[Association] class RX_M { [Key] RX_T ref x; [Key] RX_T ref y; };\n'
+             'instance of RX_T as $c@U@ { k = 5; };\ninstance of RX_M { x = $c@U@; y = $c@U@; };\n'),
+    _rx('missing-reference-class-of-method-parameter',
+        QX + 'class RX_P { [Key] uint8 k; uint8 m([In] RX_T ref t, [In] uint8 n); };\ninstance of RX_P { k = 1; };\n',
+        'MOFDependencyError', [[('compile', RX_T)], [('write', 'RX_T.mof', RX_T)]],
+        QX + 'class RX_P2 { [Key] uint8 k; uint8 m2([In] RX_T ref t[]); };\n'),
+    _rx('missing-embeddedinstance-class',
+        QX + 'class RX_H { [Key] uint8 k; [EmbeddedInstance("RX_T")] string e; };\n'
+             'instance of RX_H { k = 1; e = "instance of RX_T { k = 2; };"; };\n',
+        'MOFDependencyError', [[('compile', RX_T)], [('write', 'RX_T.mof', RX_T)]],
+        QX + 'class RX_H2 { [Key] uint8 k; [EmbeddedInstance("RX_T")] string e[]; };\n'
+             'instance of RX_H2 { k = 1; e = {"instance of RX_T { k = 3; };"}; };\n'),
+    _rx('missing-class-inside-embedded-value',
+        'instance of RX_H { k = 1; e = "instance of RX_T { k = 2; };"; };\n',
+        'MOFDependencyError', [[('compile', RX_T)], [('write', 'RX_T.mof', RX_T)]],
+        'instance of RX_H { k = 9; e = "instance of RX_T { k = 8; };"; };\ninstance of RX_T { k = 8; };\n',
+        setup=[('compile', QX + 'class RX_H { [Key] uint8 k; [EmbeddedObject] string e; };\n')]),
+    _rx('missing-qualifier-declarations',
+        'class RX_Q { [Key] uint8 k; [Description("d")] string s; };\ninstance of RX_Q { k = 1; s = "x"; };\n',
+        'MOFDependencyError',
+        [[('compile', QX)], [('write', 'q/qualifiers.mof', QX)], [('direct-qual', QX)],
+         [('write', 'qualifiers_optional.mof', QX)]],
+        'class RX_Q2 { [Key, Description("e")] uint8 k; };\ninstance of RX_Q2 { k = 2; };\n'),
+    _rx('missing-one-qualifier-declaration',
+        QKEY + 'class RX_Q { [Key] uint8 k; [Description("d")] string s; };\ninstance of RX_Q { k = 1; s = "x"; };\n',
+        'MOFDependencyError', [[('compile', QDESC)], [('direct-qual', QDESC)]],
+        'class RX_Q3 { [Description("z")] uint8 p; };\n'),
+    _rx('instance-of-missing-class',
+        'instance of RX_T as $a@U@ { k = 1; };\ninstance of RX_T { k = 2; };\n',
+        'MOFDependencyError', [[('compile', RX_T)], [('write', 'RX_T.mof', RX_T)]],
+        QX + 'class RX_U : RX_T { uint8 u; };\ninstance of RX_U { k = 3; u = 1; };\n'),
+    _rx('missing-include-file',
+        QX + 'class RX_A { [Key] uint8 k; };\n@PRE@#pragma include("inc/part.mof")\n'
+             'class RX_B : RX_I { uint8 b; };\n',
+        'OSError', [[('write', 'inc/part.mof', 'class RX_I { uint8 i; };\n')]],
+        '#pragma include("inc/part.mof")\nclass RX_C : RX_I { uint8 c; };\n',
+        pre_inst='instance of RX_A { k = 1; };\n'),
+    _rx('dependency-file-with-missing-dependency',
+        QX + 'class RX_D : RX_Base { uint8 d; };\ninstance of RX_D { k = 1; d = 2; };\n',
+        'MOFDependencyError', [[('write', 'RX_Root.mof', RX_ROOT)], [('compile', RX_ROOT)]],
+        QX + 'class RX_E : RX_Root { [Key] uint8 k; };\ninstance of RX_E { k = 4; r = 1; };\n',
+        pre={'RX_Base.mof': 'class RX_Base : RX_Root { [Key] uint8 k; };\n'}),
+    _rx('dependency-file-chain-with-missing-dependency',
+        QX + 'class RX_D : RX_Base { uint8 d; };\ninstance of RX_D { k = 1; d = 2; m = 3; };\n',
+        'MOFDependencyError', [[('write', 'deep/er/RX_Root.mof', RX_ROOT)], [('compile', RX_ROOT)]],
+        QX + 'class RX_E : RX_Mid { [Key] uint8 k2; };\n',
+        pre={'RX_Base.mof': 'class RX_Base : RX_Mid { [Key] uint8 k; };\n',
+             'deep/RX_Mid.mof': 'class RX_Mid : RX_Root { uint8 m; };\n'}),
+    _rx('dependency-file-with-syntax-error',
+        QX + 'class RX_D : RX_Base { uint8 d; };\ninstance of RX_D { k = 1; d = 2; };\n',
+        'MOFParseError', [[('write', 'RX_Base.mof', 'class RX_Base { [Key] uint8 k; };\n')]],
+        QX + 'class RX_E : RX_Base { uint8 e; };\n',
+        pre={'RX_Base.mof': 'class RX_Base { [Key] uint8 k }\n'}),
+    _rx('reference-dependency-file-with-missing-dependency', QX + RX_LINK, 'MOFDependencyError',
+        [[('write', 'RX_Root.mof', RX_ROOT)], [('compile', RX_ROOT)]],
+        QX + 'class RX_E : RX_Root { [Key] uint8 k; };\n',
+        pre={'RX_T.mof': 'class RX_T : RX_Root { [Key] uint8 k; };\n'}),
+    _rx('instance-class-file-with-missing-dependency',
+        QX + 'instance of RX_T as $a@U@ { k = 1; r = 2; };\n', 'MOFDependencyError',
+        [[('write', 'RX_Root.mof', RX_ROOT)], [('compile', RX_ROOT)]],
+        QX + 'class RX_E : RX_Root { [Key] uint8 k; };\n',
+        pre={'RX_T.mof': 'class RX_T : RX_Root { [Key] uint8 k; };\n'}),
+    _rx('qualifier-file-with-missing-include',
+        'class RX_Q { [Key] uint8 k; };\ninstance of RX_Q { k = 1; };\n', 'OSError',
+        [[('write', 'q2.mof', QX)]],
+        'class RX_Q2 { [Key, Description("e")] uint8 k; };\n',
+        pre={'qualifiers.mof': '#pragma include("q2.mof")\n'}),
+    _rx('undefined-alias',
+        'instance of RX_L { a = $p@U@; b = $q@U@; w = 1; };\n', 'MOFParseError',
+        [[('compile', 'instance of RX_T as $p@U@ { k = 1; };\ninstance of RX_T as $q@U@ { k = 2; };\n')]],
+        'instance of RX_L { a = $q@U@; b = $p@U@; w = 2; };\n',
+        setup=[('compile', QX + 'class RX_T { [Key] uint8 k; };\n'
+                                '[Association] class RX_L { [Key] RX_T ref a; [Key] RX_T ref b; uint8 w; };\n')]),
+    _rx('namespace-pragma-to-missing-namespace',
+        QX + 'class RX_A { [Key] uint8 k; };\n#pragma namespace("@NS2@")\n' + QX +
+        'class RX_N { [Key] uint8 k; };\ninstance of RX_N { k = 1; };\n',
+        'known-escape', [[('addns', '@NS2@')]],
+        '#pragma namespace("@NS2@")\n' + QX + 'class RX_N2 { [Key] uint8 k; };\n',
+        kinds=('script', 'faked-direct'), modes=NODEP, ns2=True),
+    _rx('missing-superclass-after-namespace-pragma',
+        QX + 'class RX_A { [Key] uint8 k; };\n#pragma namespace("@NS2@")\n' + QX +
+        'class RX_D : RX_Base { uint8 d; };\ninstance of RX_D { k = 2; b = 3; d = 4; };\n',
+        'MOFDependencyError',
+        [[('compile', QKEY + 'class RX_Base { [Key] uint8 k; uint8 b; };\n', '@NS2@')],
+         [('write', 'RX_Base.mof', QKEY + 'class RX_Base { [Key] uint8 k; uint8 b; };\n')]],
+        '#pragma namespace("@NS2@")\n' + QX + 'class RX_E : RX_Base { uint8 e; };\n',
+        setup=[('addns', '@NS2@')], modes=NODEP, ns2=True),
+]
+RX_REJECT_OPS = ['CreateClass', 'CreateInstance', 'SetQualifier']
+RX_REJECT_MORE = ['GetClass', 'EnumerateQualifiers']
+RX_REJECT_CODES = [_K.CIM_ERR_FAILED, _K.CIM_ERR_ACCESS_DENIED, _K.CIM_ERR_INVALID_PARAMETER, _K.CIM_ERR_NOT_FOUND,
+                   _K.CIM_ERR_NOT_SUPPORTED, _K.CIM_ERR_INVALID_SUPERCLASS, _K.CIM_ERR_ALREADY_EXISTS,
+                   _K.CIM_ERR_INVALID_CLASS]
+# failures that create nothing (for "two different failures before the fix")
+RX_OTHER_FAILURES = ['class RX_Z1 : RX_NoSuchSuper { };\n', 'instance of RX_NoSuchClass { k = 1; };\n',
+                     'class RX_Z2 { [RX_NoSuchQual] uint8 p; };\n', 'class RX_Z3 { uint8 p = @; };\n',
+                     '#pragma include("rx_no_such_file.mof")\n', 'class RX_Z4 { RX_Z4 ref r = $rx_undefined; };\n',
+                     'class RX_Z5 {', '#pragma namespace("//h/x")\nclass RX_Z6 { };\n']
+
+
+def rx_reject_scenarios(ops, idxs, codes):
+    out = []
+    for op in ops:
+        for idx in idxs:
+            for code in codes:
+                out.append(_rx('repository-rejects-%s-call-%d-status-%d' % (op, idx, code), RX_REPO, 'any',
+                               [[('accept',)]], RX_REPO_Y, arm=(op, idx, code)))
+    return out
+
+
+class Rejector:
+    """Makes one operation of a repository object raise a CIMError at its idx-th call (any repository kind)."""
+
+    def __init__(self, target, op, idx, code, ns):
+        self.target, self.op, self.idx, self.code, self.n, self.fired, self.ns = target, op, idx, code, 0, [], ns
+        self.orig = getattr(target, op)
+        setattr(target, op, self)
+
+    def __call__(self, *args, **kwargs):
+        if kwargs.get('namespace') != self.ns and not any(isinstance(a, str) and a == self.ns for a in args):
+            return self.orig(*args, **kwargs)      # e.g. the probe in another namespace
+        self.n += 1
+        if self.n == self.idx:
+            self.fired.append((self.op, self.code))
+            raise CIMError(self.code, 'scripted rejection of %s call %d' % (self.op, self.n))
+        return self.orig(*args, **kwargs)
+
+    def disarm(self):
+        try:
+            delattr(self.target, self.op)
+        except AttributeError:
+            pass
+
+
+def rx_handle(env):
+    if env.kind == 'script':
+        return env.repo
+    if env.kind.startswith('faked'):
+        return env.comp.inner.handle
+    return env.comp.handle
+
+
+def rx_compiler(env):
+    return env.comp.inner if env.kind.startswith('faked') else env.comp
+
+
+_QDECLS = {}
+
+
+def rx_qualifier_declarations(text):
+    if text not in _QDECLS:
+        h = MOFWBEMConnection()
+        MOFCompiler(h, log_func=None).compile_string(text, 'q')
+        _QDECLS[text] = list(h.qualifiers['q'].values())
+    return [q.copy() for q in _QDECLS[text]]
+
+
+def rx_action(env, act, ns, d):
+    """Apply one set-up/fix action. -> None | text describing why it failed"""
+    what = act[0]
+    if what == 'compile':
+        target = act[2] if len(act) > 2 else ns
+        kind, x = attempt(lambda: env.comp.compile_string(act[1], target))
+        return None if kind == 'ok' else 'compiling the missing piece: %s: %s' % (type(x).__name__, str(x)[:200])
+    if what == 'write':
+        p = os.path.join(d, act[1])
+        os.makedirs(os.path.dirname(p), exist_ok=True)
+        with open(p, 'w', encoding='utf-8', newline='') as f:
+            f.write(act[2])
+        return None
+    if what == 'direct-qual':
+        if env.kind.startswith('faked'):
+            env.comp._ensure(ns)
+        for q in rx_qualifier_declarations(act[1]):
+            rx_handle(env).SetQualifier(q, namespace=ns or rx_handle(env).default_namespace)
+        return None
+    if what == 'addns':
+        if env.kind == 'script':
+            env.repo.missing_ns = set(env.repo.missing_ns) - {act[1]}
+        elif env.kind.startswith('faked'):
+            env.comp._ensure(act[1])
+        return None
+    if what == 'accept':
+        return None
+    raise AssertionError(act)
+
+
+def rx_package(mode, text, d, px='RX_'):
+    """Write the files that carry `text` in the given mode. -> (top text | None, top file | None, {path: text})"""
+    files = {}
+    if mode == 'string':
+        return text, None, files
+    if mode == 'file':
+        files['x.mof'] = text
+        top = 'x.mof'
+    elif mode in ('inc1', 'inc2'):
+        files['f0.mof'] = ('class RX_W0 { };\n#pragma include("s/f1.mof")\nclass RX_W0b { };\n').replace('RX_', px)
+        if mode == 'inc1':
+            files['s/f1.mof'] = text
+        else:
+            files['s/f1.mof'] = ('class RX_W1 { };\n#pragma include("f2.mof")\nclass RX_W1b { };\n').replace('RX_', px)
+            files['s/f2.mof'] = text
+        top = 'f0.mof'
+    else:
+        # the dependency file defines its class after the text: a failure in the text leaves the dependency unresolved
+        if mode == 'dep1':
+            files[px + 'S1.mof'] = text + 'class %sS1 { uint8 s1; };\n' % px
+        else:
+            files[px + 'S1.mof'] = 'class %sS1 : %sS2 { uint8 s1; };\n' % (px, px)
+            files['sub/%sS2.mof' % px] = text + 'class %sS2 { uint8 s2; };\n' % px
+        top = None
+    out = {}
+    for rel, t in files.items():
+        p = os.path.join(d, rel)
+        os.makedirs(os.path.dirname(p), exist_ok=True)
+        with open(p, 'w', encoding='utf-8', newline='') as f:
+            f.write(t)
+        out[p] = t
+    if top is None:
+        return 'class %sTOP : %sS1 { uint8 top; };\n' % (px, px), None, out
+    return None, os.path.join(d, top), out
+
+
+def rx_run(env, pack, ns):
+    text, path, _ = pack
+    if path is not None:
+        return env.comp.compile_file(path, ns)
+    return env.comp.compile_string(text, ns)
+
+
+def rx_snapshot(env, nss):
+    """-> {ns: {'classes': {lname: CIMClass}, 'quals': {lname: decl}, 'instances': [CIMInstance]}}"""
+    out = {}
+    for ns in nss:
+        if env.kind == 'script':
+            classes = dict(env.repo.cls.get(ns, {}))
+            quals = dict(env.repo.qual.get(ns, {}))
+            insts = list(env.repo.inst.get(ns, {}).values())
+        elif env.kind == 'faked-direct':
+            conn = env.comp.conn
+            try:
+                classes = {c.classname.lower(): c for c in conn.EnumerateClasses(
+                    namespace=ns, DeepInheritance=True, LocalOnly=True, IncludeQualifiers=True,
+                    IncludeClassOrigin=True)}
+                quals = {q.name.lower(): q for q in conn.EnumerateQualifiers(namespace=ns)}
+            except CIMError:
+                classes, quals = {}, {}
+            insts = env.view.view_instances(ns)
+        else:
+            h = rx_handle(env)
+            classes = {k.lower(): v for k, v in h.classes.get(ns, {}).items()}
+            quals = {k.lower(): v for k, v in h.qualifiers.get(ns, {}).items()}
+            insts = []
+            for i in h.instances.get(ns, []):
+                # MOFWBEMConnection.CreateInstance appends without looking for an existing instance (documented):
+                # what was created before the failure point is there twice after the retry
+                if not any(i == j for j in insts):
+                    insts.append(i)
+        out[ns] = dict(classes=classes, quals=quals, instances=insts)
+    return out
+
+
+def _brief(o):
+    try:
+        return o.tomof().replace('\n', ' ')[:300]
+    except Exception:  # noqa
+        return repr(o)[:300]
+
+
+def rx_diff(got, want, exact):
+    """-> None | description of the first difference (got: reused compiler, want: the reference)"""
+    for ns in want:
+        for sect in ('quals', 'classes'):
+            g, w = got[ns][sect], want[ns][sect]
+            for name, o in w.items():
+                if name not in g:
+                    return '%s %s:%s is missing' % (sect, ns, name)
+                if g[name] != o:
+                    return '%s %s:%s differs: got %s | expected %s' % (sect, ns, name, _brief(g[name]), _brief(o))
+            if exact:
+                for name in g:
+                    if name not in w:
+                        return '%s %s:%s is there but not expected: %s' % (sect, ns, name, _brief(g[name]))
+        g, w = got[ns]['instances'], want[ns]['instances']
+        for o in w:
+            if not any(o == j for j in g):
+                return 'instance %s is missing or differs; got %s' % (_brief(o), [_brief(j) for j in g][:4])
+        if exact:
+            for o in g:
+                if not any(o == j for j in w):
+                    return 'instance %s is there but not expected' % _brief(o)
+    return None
+
+
+class RetryBench:
+    """One reused compiler (and one reference compiler that never sees a failure) per repository kind."""
+
+    def __init__(self, kind):
+        self.kind = kind
+        self.root = tempfile.mkdtemp(prefix='rx_', dir=TMP)
+        self.env = Env(kind, search_paths=[self.root])
+        self.clean = None
+        self.n = 0
+        self.fresh_every = 24 if QUICK else 4
+        self.stats = {}
+
+    def reference_env(self, fresh):
+        if fresh:
+            return Env(self.kind, search_paths=[self.root])
+        if self.clean is None:
+            self.clean = Env(self.kind, search_paths=[self.root])
+        return self.clean
+
+    def note(self, what):
+        self.stats[what] = self.stats.get(what, 0) + 1
+
+
+_RXU = [0]
+EMBEDDED_MODE_MSG = re.compile(r'Invalid compile of CIM(Class|QualifierDeclaration) ')
+SERVER_POLICY = (_K.CIM_ERR_CLASS_HAS_CHILDREN, _K.CIM_ERR_CLASS_HAS_INSTANCES)
+
+
+def rx_subact(sub, a):
+    return tuple(sub(v) if i and isinstance(v, str) else v for i, v in enumerate(a))
+
+
+def rx_hints(env, sc):
+    hints = {'file', 'embedded'}
+    if env.kind == 'script' or sc['arm']:
+        hints.add('repo')
+    if env.kind.startswith('faked'):
+        hints.add('mock')
+    return hints
+
+
+def rx_reference(ref, setup, pieces, pack, ns, d, concat):
+    """The same content on a compiler that never saw the failure. -> ('ok', None) | (kind, exception or text)"""
+    for a in setup:
+        why = rx_action(ref, a, ns, d)
+        if why:
+            return 'setup', why
+    if concat:
+        text = ''.join(a[1] for a in pieces) + pack[0]
+        return attempt(lambda: ref.comp.compile_string(text, ns))
+    for a in pieces:
+        why = rx_action(ref, a, ns, d)
+        if why:
+            return 'piece', why
+    return attempt(lambda: rx_run(ref, pack, ns))
+
+
+def rx_judge(bench, name, variant, ref, nss, res3, resr, exact, detail):
+    """Step 3 on the reused compiler against the reference."""
+    env = bench.env
+    (kind3, x3), (kindr, xr) = res3, resr
+    err3 = '%s: %s' % (type(x3).__name__, str(x3)[:300]) if kind3 != 'ok' else None
+    errr = (xr if isinstance(xr, str) else '%s: %s' % (type(xr).__name__, str(xr)[:300])) if kindr != 'ok' else None
+    if kind3 == 'ok' and kindr == 'ok':
+        why = rx_diff(rx_snapshot(env, nss), rx_snapshot(ref, nss), exact)
+        if why:
+            R.violation('repository-differs-after-retry-' + name, why=why, **detail)
+        bench.note('compared')
+        return
+    if kind3 != 'ok' and kindr == 'ok':
+        if env.kind == 'faked-direct' and isinstance(x3, MOFRepositoryError) and x3.cim_error is not None and \
+                x3.cim_error.status_code in SERVER_POLICY:
+            # the mock server does not let a class that has instances or subclasses be modified: what the failed
+            # attempt created before its failure point stands in the way of the retry (the server's policy)
+            bench.note('server-policy')
+            return
+        R.violation(('other-MOF' if variant == 'other' else 'same-MOF') + '-fails-after-fix-' + name, error=err3,
+                    **detail)
+        return
+    if kind3 != 'ok' and type(x3) is type(xr) and isinstance(x3, MOFParseError) and \
+            EMBEDDED_MODE_MSG.match(x3.msg or '') and EMBEDDED_MODE_MSG.match(xr.msg or '') and \
+            'search path' in detail.get('fix_kind', ''):
+        R.violation('known:class-file-from-search-path-is-compiled-in-embedded-value-mode-and-rejected',
+                    what='A class needed by an embedded instance value is looked up on the search path, but its MOF '
+                         'file is then compiled while the compiler is still in embedded-value mode and is rejected '
+                         '(MOFParseError "Invalid compile of CIMQualifierDeclaration/CIMClass ... Compiler in mode to '
+                         'compile embedded instance", without position), also on a fresh compiler: instance of RX_H '
+                         '{ k = 1; e = "instance of RX_T { k = 2; };"; }; with [EmbeddedObject] string e and '
+                         'RX_T.mof on the search path.',
+                    error=err3, **detail)
+        bench.note('embedded-mode')
+        return
+    R.violation('retry-reference-fails-' + name, reference_error=errr, reused_compiler=err3 or 'ok', **detail)
+
+
+def rx_scenario(bench, sc, fixi, mode, variant, other=None, fresh=None, default_ns=False):
+    """variant: 'retry' (X again) | 'other' (a different MOF using the names that were missing) | 'two' (a second,
+    different failure before the fix, then X again). default_ns: compile with ns=None (the default namespace of the
+    repository, shared by all such scenarios: own class names, no exact comparison).
+    -> False if the scenario does not apply"""
+    env = bench.env
+    if sc['kinds'] is not None and env.kind not in sc['kinds']:
+        return False
+    if sc['modes'] is not None and mode not in sc['modes']:
+        return False
+    if default_ns and sc['ns2']:
+        return False
+    bench.n += 1
+    _RXU[0] += 1
+    u = str(_RXU[0])
+    ns, ns2 = (None if default_ns else new_ns()), 'rxo' + u
+    real_ns = ns or rx_handle(env).default_namespace
+    d = os.path.join(bench.root, 's' + u)
+    os.makedirs(d)
+    # the mock server refuses to modify a class that has instances: nothing of that sort before the failure point
+    pre_inst = '' if env.kind == 'faked-direct' else sc['pre_inst']
+
+    def sub(t):
+        t = t.replace('@PRE@', pre_inst).replace('@U@', u).replace('@NS2@', ns2)
+        return t.replace('RX_', 'R%s_' % u) if default_ns else t
+
+    fixi = fixi % len(sc['fixes'])
+    fix = [rx_subact(sub, a) for a in sc['fixes'][fixi]]
+    setup = [rx_subact(sub, a) for a in sc['setup']]
+    x, y = sub(sc['x']), sub(sc['y'])
+    key = (env.kind, sc['name'], fixi, mode, variant, other, default_ns)
+    fix_kind = ', '.join(sorted({'file on the search path' if a[0] == 'write' else a[0] for a in fix}))
+    detail = dict(family='retry-after-fix', scenario=sc['name'], mode=mode, variant=variant, repo=env.kind,
+                  ns=ns or 'None (the default namespace %s)' % real_ns, mof_x=x, fix=repr(fix)[:600], fix_kind=fix_kind)
+    if setup:
+        detail['setup'] = repr(setup)[:700]
+    if sc['pre']:
+        detail['search_path_files_before'] = dict(sc['pre'])
+    hints = rx_hints(env, sc)
+    nss = [real_ns] + ([ns2] if sc['ns2'] else [])
+    comp0 = env.comp
+    rej = None
+    try:
+        # ---- the reused compiler
+        if env.kind == 'script' and sc['ns2']:
+            env.repo.missing_ns = {ns2}         # this repository does not create namespaces on demand
+        pre = {sub(rel): sub(t) for rel, t in sc['pre'].items()}
+        for rel, t in pre.items():
+            rx_action(env, ('write', rel, t), ns, d)
+        for a in setup:
+            why = rx_action(env, a, ns, d)
+            if why:
+                R.violation('retry-scenario-set-up-fails', why=why, **detail)
+                return True
+        pack = rx_package(mode, x, d, 'R%s_' % u if default_ns else 'RX_')
+        fmap = dict(pack[2])
+        for rel, t in pre.items():
+            fmap[os.path.join(d, rel)] = t
+        if sc['arm']:
+            op, idx, code = sc['arm']
+            if env.kind == 'script':
+                env.repo.arm({op: (idx, code)})
+            else:
+                rej = Rejector(rx_handle(env), op, idx, code, real_ns)
+        kind1, x1, _ = case(env, 'retry-after-fix', key, pack[0], ns=real_ns, run=lambda: rx_run(env, pack, ns), files=fmap,
+                            hints=hints, expect='any' if sc['arm'] else 'error', force=(bench.n % 5 == 0),
+                            extra=dict(scenario=sc['name'], mode=mode, variant=variant))
+        if env.kind == 'script':
+            env.repo.arm(None)
+        if rej is not None:
+            rej.disarm()
+            rej = None
+        if env.comp is not comp0:
+            return True                         # the probe after the failure failed (reported): compiler replaced
+        if kind1 == 'ok' and not sc['arm']:
+            return True                         # reported by case() as invalid-input-accepted
+        bench.note('first attempt: ' + (kind1 if kind1 != 'mce' else type(x1).__name__))
+        if kind1 != 'ok':
+            detail['first_failure'] = '%s: %s' % (type(x1).__name__, str(x1)[:200])
+        want = sc['fail']
+        if kind1 != 'ok' and want not in ('any', 'known-escape'):
+            okk = (kind1 == 'os') if want == 'OSError' else (kind1 == 'mce' and type(x1).__name__ == want)
+            if not okk:
+                R.violation('first-failure-of-unexpected-kind-' + sc['name'], expected=want, **detail)
+        if kind1 == 'mce' and x1.file is not None and mode != 'string' and x1.lineno is not None and \
+                not any(same_path(x1.file, p) for p in fmap):
+            R.violation('error-names-wrong-file', reported=repr(x1.file), expected=sorted(fmap), **detail)
+        if variant == 'two':
+            t2 = RX_OTHER_FAILURES[(other or 0) % len(RX_OTHER_FAILURES)]
+            detail['second_failure'] = t2
+            case(env, 'retry-after-fix', key + ('second',), t2, ns=real_ns, hints=hints, expect='error',
+                 run=lambda: env.comp.compile_string(t2, ns))
+            if env.comp is not comp0:
+                return True
+        # ---- remove the cause, compile again
+        for a in fix:
+            why = rx_action(env, a, ns, d)
+            if why:
+                R.violation('missing-piece-fails-after-failure-' + sc['name'], why=why, **detail)
+                return True
+        if variant == 'other':
+            pack3 = (y, None, {})
+            detail['mof_y'] = y
+        else:
+            pack3 = pack
+        R.case(key + ('again',))
+        res3 = attempt(lambda: rx_run(env, pack3, ns))
+        # ---- the reference: a compiler that never saw a failure, nothing yet in these namespaces
+        if fresh is None:
+            fresh = default_ns or bench.n % bench.fresh_every == 0
+        ref = bench.reference_env(fresh)
+        detail['reference'] = 'fresh compiler' if fresh else 'compiler without failures'
+        pieces = [a for a in fix if a[0] not in ('write', 'accept')]
+        # (missing piece + X) as one compilation unit where that can be written down, else piece then X
+        concat = (variant == 'other' or mode == 'string') and bench.n % 2 == 1 and \
+            all(a[0] == 'compile' and len(a) == 2 for a in pieces)
+        resr = rx_reference(ref, setup, pieces, pack3, ns, d, concat)
+        rx_judge(bench, sc['name'], variant, ref, nss, res3, resr, variant != 'other' and not default_ns, detail)
+        return True
+    finally:
+        if rej is not None:
+            rej.disarm()
+        if env.kind == 'script':
+            env.repo.arm(None)
+            env.repo.missing_ns = frozenset()
+        shutil.rmtree(d, ignore_errors=True)
+
+
+def rx_pair(bench, sa, sb, fresh):
+    """Two different failures (each in its own namespace, with its own names) before either is fixed; then both
+    are fixed, then both compiled again (in reverse order)."""
+    env = bench.env
+    for s in (sa, sb):
+        if (s['kinds'] is not None and env.kind not in s['kinds']) or s['arm'] or s['ns2']:
+            return
+    bench.n += 1
+    st = []
+    for s in (sa, sb):
+        _RXU[0] += 1
+        u = str(_RXU[0])
+        d = os.path.join(bench.root, 's' + u)
+        os.makedirs(d)
+        pre_inst = '' if env.kind == 'faked-direct' else s['pre_inst']
+        sub = lambda t, u=u, pre_inst=pre_inst: t.replace('@PRE@', pre_inst).replace('@U@', u).replace(  # noqa: E731
+            'RX_', 'R%s_' % u)
+        st.append(dict(sc=s, u=u, d=d, ns=new_ns(), sub=sub, x=sub(s['x']),
+                       pre={sub(k): sub(v) for k, v in s['pre'].items()},
+                       setup=[rx_subact(sub, a) for a in s['setup']],
+                       fix=[rx_subact(sub, a) for a in s['fixes'][0 if not st else -1]]))
+    key = (env.kind, 'pair', sa['name'], sb['name'])
+    detail = dict(family='retry-after-fix', scenario='%s then %s' % (sa['name'], sb['name']), variant='pair',
+                  repo=env.kind)
+    comp0 = env.comp
+    try:
+        for e in st:
+            for rel, t in e['pre'].items():
+                rx_action(env, ('write', rel, t), e['ns'], e['d'])
+            for a in e['setup']:
+                why = rx_action(env, a, e['ns'], e['d'])
+                if why:
+                    R.violation('retry-scenario-set-up-fails', why=why, **detail)
+                    return
+        for e in st:
+            fmap = {os.path.join(e['d'], rel): t for rel, t in e['pre'].items()}
+            case(env, 'retry-after-fix', key + (e['sc']['name'],), e['x'], ns=e['ns'], files=fmap,
+                 hints=rx_hints(env, e['sc']), expect='error')
+            if env.comp is not comp0:
+                return
+        for e in st:
+            for a in e['fix']:
+                why = rx_action(env, a, e['ns'], e['d'])
+                if why:
+                    R.violation('missing-piece-fails-after-failure-' + e['sc']['name'], why=why, mof_x=e['x'], **detail)
+                    return
+        ref = bench.reference_env(fresh)
+        for e in reversed(st):
+            R.case(key + (e['sc']['name'], 'again'))
+            pack = (e['x'], None, {})
+            res3 = attempt(lambda: rx_run(env, pack, e['ns']))
+            resr = rx_reference(ref, e['setup'], [a for a in e['fix'] if a[0] != 'write'], pack, e['ns'], e['d'], False)
+            fix_kind = ', '.join(sorted({'file on the search path' if a[0] == 'write' else a[0] for a in e['fix']}))
+            rx_judge(bench, e['sc']['name'], 'pair', ref, [e['ns']], res3, resr, True,
+                     dict(detail, mof_x=e['x'], fix=repr(e['fix'])[:600], fix_kind=fix_kind, ns=e['ns'],
+                          reference='fresh compiler' if fresh else 'compiler without failures'))
+    finally:
+        for e in st:
+            shutil.rmtree(e['d'], ignore_errors=True)
+
+
+def f_retry():
+    kinds = ('mof', 'script', 'faked-direct', 'faked-cached')
+    if QUICK:
+        rejects = rx_reject_scenarios(RX_REJECT_OPS, (1, 2), RX_REJECT_CODES[:4])
+    else:
+        rejects = rx_reject_scenarios(RX_REJECT_OPS + RX_REJECT_MORE, (1, 2, 3), RX_REJECT_CODES)
+    n = 0
+    for ki, kindname in enumerate(kinds):
+        bench = RetryBench(kindname)
+        for si, sc in enumerate(RX_SCENARIOS):
+            modes = sc['modes'] or ALLMODES
+            for fi in range(len(sc['fixes'])):
+                for mi, mode in enumerate(modes):
+                    for vi, variant in enumerate(('retry', 'other', 'two')):
+                        n += 1
+                        if QUICK:
+                            # every scenario as a plain string retry on every repository (every fix on the first
+                            # two); the rest of the product rotates
+                            base = mode == 'string' and variant == 'retry' and (ki < 2 or fi == 0)
+                            if not base and (si + fi * 5 + mi * 3 + vi * 7 + ki * 11) % 17:
+                                continue
+                        if variant != 'two':
+                            others = [None]
+                        elif QUICK:
+                            others = [n]
+                        else:
+                            others = [n, n + 3, n + 6]
+                        for o in others:
+                            rx_scenario(bench, sc, fi, mode, variant, other=o)
+        for ri, sc in enumerate(rejects):
+            for mi, mode in enumerate(('string', 'inc1', 'dep1')):
+                for vi, variant in enumerate(('retry', 'other', 'two')):
+                    n += 1
+                    if QUICK and (ri * 5 + mi * 3 + vi + ki * 7) % (5 if kindname == 'script' else 16):
+                        continue
+                    if not QUICK and mode != 'string' and (ri + mi + vi) % 2:
+                        continue
+                    rx_scenario(bench, sc, 0, mode, variant, other=n if variant == 'two' else None)
+        simple = [s for s in RX_SCENARIOS if not s['ns2']]
+        for ai, sa in enumerate(simple):
+            for bi, sb in enumerate(simple):
+                if ai == bi or (QUICK and (ai * 3 + bi + ki * 5) % 19):
+                    continue
+                n += 1
+                rx_pair(bench, sa, sb, fresh=(n % (24 if QUICK else 4) == 0))
+        dbg('retry', kindname, bench.n, 'scenarios', sorted(bench.stats.items()))
+        # ns=None: the default namespace of the repository (one more reused compiler, a fresh reference each time)
+        bench = RetryBench(kindname)
+        for si, sc in enumerate(RX_SCENARIOS + rejects[:6]):
+            for fi in range(len(sc['fixes'])):
+                for vi, variant in enumerate(('retry', 'other', 'two')):
+                    n += 1
+                    if QUICK and (si * 3 + fi + vi * 5 + ki * 2) % 17:
+                        continue
+                    # a default namespace that has no qualifier declarations yet: a new compiler and repository
+                    b = RetryBench(kindname) if 'qualifier' in sc['name'] else bench
+                    rx_scenario(b, sc, fi, ('string', 'inc1', 'dep1')[n % 3] if vi else 'string', variant,
+                                other=n if variant == 'two' else None, default_ns=True)
+        dbg('retry', kindname, 'default namespace', bench.n, 'scenarios', sorted(bench.stats.items()))
+
+
+# ----------------------------------------------------------------------------------------------------------------
 FAMILIES = [
     ('strings', lambda: f_strings(Env('mof'))),
     ('numbers', lambda: f_numbers(Env('mof'))),
@@ -1758,6 +2438,7 @@ FAMILIES = [
     ('mock', f_mock),
     ('mutations', lambda: f_mutations(Env('mof'))),
     ('random', lambda: f_random(Env('mof'))),
+    ('retry', f_retry),
 ]
 
 
